@@ -443,7 +443,7 @@ func c02setEq(got, want imap.NumSet) bool {
 	return false
 }
 
-var c02flagPool = []imap.Flag{imap.FlagSeen, imap.FlagDeleted, "\\answered", imap.FlagDraft, imap.FlagFlagged, "$Forwarded", "kw"}
+var c02flagPool = []imap.Flag{imap.FlagSeen, imap.FlagDeleted, "\\answered", imap.FlagDraft, imap.FlagFlagged, "$Forwarded", "kw", "Draft"} // ("Draft" is a keyword, not the system flag)
 
 func c02flags(max int) []imap.Flag {
 	n := nd.Choice(max + 1)
